@@ -119,6 +119,9 @@ class SFTPClient(BaseSFTP, ClosingContextManager):
         self._cwd = None
         # request # -> SFTPFile
         self._expecting = weakref.WeakValueDictionary()
+        # request number -> (type, Message): responses to ownerless requests
+        # that were read off the wire by a call waiting for something else
+        self._unclaimed = {}
         if type(sock) is Channel:
             # override default logger
             transport = self.sock.get_transport()
@@ -318,6 +321,13 @@ class SFTPClient(BaseSFTP, ClosingContextManager):
             except EOFError:
                 self._request(CMD_CLOSE, handle)
                 return
+            finally:
+                # Nobody is going to collect read-aheads still outstanding
+                # (end of folder reached, error, or iteration abandoned).
+                with self._lock:
+                    for num in nums:
+                        self._expecting.pop(num, None)
+                        self._unclaimed.pop(num, None)
 
     def open(self, filename, mode="r", bufsize=-1):
         """
@@ -883,6 +893,14 @@ class SFTPClient(BaseSFTP, ClosingContextManager):
         return num
 
     def _read_response(self, waitfor=None):
+        with self._lock:
+            held = self._unclaimed.pop(waitfor, None)
+        if held is not None:
+            # already read off the wire by another call
+            t, msg = held
+            if t == CMD_STATUS:
+                self._convert_status(msg)
+            return t, msg
         while True:
             try:
                 t, data = self._read_packet()
@@ -914,6 +932,11 @@ class SFTPClient(BaseSFTP, ClosingContextManager):
             # nor as not an instance of None or NoneType
             if fileobj is not type(None):  # noqa
                 fileobj._async_response(t, msg, num)
+            else:
+                # ownerless request (e.g. a listdir_iter read-ahead) answered
+                # while we wait for something else: keep it for its caller
+                with self._lock:
+                    self._unclaimed[num] = (t, msg)
             if waitfor is None:
                 # just doing a single check
                 break
